@@ -540,17 +540,19 @@ func (st *tunnelServerStream) readMsgLocked() (data []byte, ok bool, err error) 
 
 		in, ok := st.receiver.dequeue()
 		if !ok {
+			// If the context is done, the receiver may have been cancelled, which
+			// discards any queued messages. So we must report the context error
+			// and not a normal end of stream, even if the client half-closed.
+			if err := st.ctx.Err(); err != nil {
+				return nil, true, err
+			}
 			if halfClosedErr := st.halfClosed.Load(); halfClosedErr != nil {
 				return nil, true, halfClosedErr.error
 			}
-			// The receiver was cancelled without the stream being half-closed,
-			// which only happens when the stream's context is done. We must not
-			// return a nil error here: there is no message to deliver.
-			err := st.ctx.Err()
-			if err == nil {
-				err = context.Canceled
-			}
-			return nil, true, err
+			// The receiver is only closed after the stream is half-closed and only
+			// cancelled after the context is done, so we should not get here. But
+			// we must not return a nil error: there is no message to deliver.
+			return nil, true, context.Canceled
 		}
 
 		switch in := in.(type) {
